@@ -239,20 +239,28 @@ def output_argument(root: Path, work: Path, out: Path, form: str) -> tuple[Path,
 
 
 def one_run(ck: Check, camp, *, doc: str, text: str, ftype: str, modular: bool, state: str, opts: dict,
-            inject: tuple | None, base_cls: dict, out_form: str = "absolute") -> dict | None:
-    """one real run in a fresh scratch parent; evaluates the property's oracle. Returns the observation."""
+            inject: tuple | None, base_cls: dict, out_form: str = "absolute", history: list[dict] | None = None) -> dict | None:
+    """one real run in a fresh scratch parent; evaluates the property's oracle. Returns the observation.
+    `history`: earlier REAL runs into the same output (each {"text", "input_file_type", "opts"}), made before the snapshot: the
+    observed run then meets the results of runs made with other options (another encoding, another version of the schema)."""
     root = Path(tempfile.mkdtemp(dir=e2e.scratch_root())).resolve()
     work = root / "parent"
     work.mkdir()
     (root / "cwd").mkdir()
     out = prepare(work, state, modular)
     out_arg, cwd = output_argument(root, work, out, out_form)
+    for h in history or []:
+        herr, _ = call_generate(h["text"], h["input_file_type"], out_arg, dict(h.get("opts", {})), cwd)
+        if herr is not None:   # the earlier run itself failed: there is no history to speak of
+            camp.hit("history_run_failed:" + type(herr).__name__)
+            shutil.rmtree(root, ignore_errors=True)
+            return None
     header_file = None
     if isinstance(opts.get("custom_file_header_path"), str) and opts["custom_file_header_path"].startswith("<text>:"):
         header_file = root / "header.txt"  # beside the scratch parent: an input, part of the snapshot
         header_file.write_text(opts["custom_file_header_path"][len("<text>:"):], encoding="utf-8")
     before = snapshot(root)
-    inp = {"doc": doc, "text": text if doc.startswith(("seeded", "genuine", "header")) else None, "input_file_type": ftype, "modular": modular,
+    inp = {"doc": doc, "text": text if doc.startswith(("seeded", "genuine", "header", "history")) else None, "history": history, "input_file_type": ftype, "modular": modular,
            "output_state": state, "out_form": out_form, "opts": {k: (str(v) if isinstance(v, Path) else v) for k, v in opts.items()},
            "inject": None if inject is None else {"stage": inject[0], "nth": inject[3], "after": inject[4], "exc": inject[5]}}
     run_opts = dict(opts)
@@ -546,6 +554,66 @@ def campaign_headers(ck: Check, n_random: int) -> None:
     camp.wall_s = time.time() - t0
 
 
+# ---------------------------------------------------------------- histories: the output already holds results of OTHER runs
+NON_ASCII = ["café", "naïve — résumé", "Größe in µm", "£ per ½ unit", "señor"]
+FIRST_ENCODINGS = ["latin-1", "cp1252", "utf-16", "utf-8", "iso-8859-15", "utf-8-sig"]
+SECOND_ENCODINGS = [None, None, "utf-8", "ascii", "latin-1", "utf-16"]   # None = the default of generate()
+
+
+def history_doc(rng, modular: bool) -> tuple[dict, list[str]]:
+    """(document, names of its definitions in module order): 2–4 definitions (dotted names = one module each when `modular`),
+    one or two of them — at a random position in the order the modules are written — described in non-ASCII text"""
+    n = rng.range(2, 4)
+    mods = rng.sample(["alpha", "beta", "gamma", "delta", "omega", "b.c", "a.z"], n) if modular else [""] * n
+    names = [f"{m}.M{k}" if m else f"M{k}" for k, m in enumerate(mods)]
+    defs = {}
+    for k, nm in enumerate(names):
+        defs[nm] = {"description": f"model number {k}", **obj({"id": {"type": rng.choice(["integer", "string"])}})}
+        if k and rng.chance(1, 2):
+            defs[nm]["properties"]["r"] = {"$ref": f"#/definitions/{names[rng.below(k)]}"}
+    for nm in rng.sample(names, rng.range(1, 2)):
+        defs[nm]["description"] = rng.choice(NON_ASCII)
+    return {"definitions": defs}, names
+
+
+def next_version(rng, doc: dict, names: list[str]) -> dict:
+    """the schema as it is at the time of the second run: a member added to some (maybe all, maybe none) of the definitions"""
+    doc = json.loads(json.dumps(doc))
+    how = rng.below(4)
+    touched = names if how == 0 else ([] if how == 1 else rng.sample(names, rng.range(1, len(names))))
+    for nm in touched:
+        doc["definitions"][nm]["properties"]["added"] = {"type": "boolean"}
+    return doc
+
+
+def campaign_histories(ck: Check, n: int) -> None:
+    """two-run histories into the SAME output: the first run with one encoding and one version of the schema, the second with
+    another encoding / a changed schema. Whatever the earlier run left there, the second run either succeeds (and changes only the
+    output) or fails with every file as the first run left it."""
+    camp = ck.campaign("histories: a second run into the output of an earlier run made with another encoding (non-ASCII text) and another version of the schema; a failed second run leaves the earlier results as they were")
+    t0 = time.time()
+    rng = ck.rng.fork("histories")
+    for i in range(n):
+        modular = rng.chance(3, 4)
+        doc, names = history_doc(rng, modular)
+        enc1, enc2 = rng.choice(FIRST_ENCODINGS), rng.choice(SECOND_ENCODINGS)
+        first = {"text": json.dumps(doc, ensure_ascii=False), "input_file_type": "jsonschema", "opts": {"encoding": enc1, "use_schema_description": True}}
+        second_opts = {"use_schema_description": rng.chance(3, 4)}
+        if enc2 is not None:
+            second_opts["encoding"] = enc2
+        text2 = json.dumps(next_version(rng, doc, names), ensure_ascii=False)
+        obs = one_run(ck, camp, doc=f"history{i}", text=text2, ftype="jsonschema", modular=modular, state="missing", opts=second_opts, inject=None,
+                      base_cls={"kind": "history", "stage": "second_run"}, history=[first])
+        camp.hit(f"first-run-encoding:{enc1}")
+        camp.hit(f"second-run-encoding:{enc2 or 'default'}")
+        camp.hit("modular" if modular else "single-file")
+        if obs is not None:
+            camp.hit("second-run:" + ("failed" if obs["failed"] else ("rewrote" if obs["diff"] else "no-change")))
+        if ck.failures and ck.notes.get("stop_at_first_failure"):
+            break
+    camp.wall_s = time.time() - t0
+
+
 def d17_model_correspondence(ck: Check) -> None:
     """the former D17 witness: model run with an unencodable text vs the real encoding failure"""
     camp = ck.campaign("former D17 witness: model run with an unencodable text vs the real encoding failure (both: failed, nothing changed)")
@@ -578,6 +646,10 @@ def search_after_broken_table(ck: Check) -> None:
             genuine_run(ck, probe_camp, name, text, ftype, modular, state, o, fclass, kind=opts.get("_kind"))
             if ck.failures:
                 return
+    # something in or after the write loop may raise now (or an effect moved before a raise): what the loop meets in the output
+    # directory matters — results of earlier runs made with other encodings / other versions of the schema
+    ck.notes["stop_at_first_failure"] = True
+    campaign_histories(ck, 300)
 
 
 def known_findings(ck: Check) -> None:
@@ -609,6 +681,7 @@ def run(ck: Check) -> None:
     campaign_genuine(ck)
     campaign_success(ck, 4 if quick else 40)
     campaign_headers(ck, 6 if quick else 120)
+    campaign_histories(ck, 30 if quick else 400)
     d17_model_correspondence(ck)
     ck.search_hooks.append(search_after_broken_table)
     known_findings(ck)
@@ -632,7 +705,7 @@ def replay(ck: Check, path: str) -> int:
             special_run(ck, camp, doc.split(":", 1)[-1], text, ftype, inp["output_state"], {}, "replay", inp["special"] == "deep_output", None if inp["special"] == "deep_output" else inp["special"])
         else:
             one_run(ck, camp, doc=doc, text=text, ftype=ftype, modular=modular, state=inp["output_state"], opts=inp.get("opts", {}), inject=inject, base_cls={"kind": "replay"},
-                    out_form=inp.get("out_form", "absolute"))
+                    out_form=inp.get("out_form", "absolute"), history=inp.get("history"))
     for f in ck.failures:
         print("REPLAY-FAILS:", json.dumps(f.classification), f.observed[:300])
     if not ck.failures:
